@@ -397,11 +397,25 @@ def tested_kinds(prog, K):
 
 def debited_kinds(prog, K):
     f = prog.find_method(K, '_change_slot_states')
+    # local aliases of parts of a node: cores = node['cores']
+    alias = {}
+    for n in walk(f.node):
+        if isinstance(n, ast.Assign) and len(n.targets) == 1 and \
+                isinstance(n.targets[0], ast.Name) and I.is_path(n.value):
+            alias[n.targets[0].id] = unparse(n.value)
     kinds = {}
     for kind, target, stmt in I.stores(f.node):
+        r = root_name(target)
+        if r in ('slot', 'slots'):
+            continue
+        text = unparse(target)
+        seen = set()
+        while r in alias and r not in seen:
+            seen.add(r)
+            text = alias[r] + ' ' + text
+            r = alias[r].split('[')[0].split('.')[0]
         for k in KINDS:
-            if "['%s']" % k in unparse(target) and root_name(target) not in \
-                    ('slot', 'slots'):
+            if "['%s']" % k in text:
                 kinds.setdefault(k, stmt)
     return f, kinds
 
@@ -577,23 +591,40 @@ def check_picks(prog, rep, f, kinds_loc, label, rid5='R01.5', rid6='R01.6',
             continue
         tid = okg[0][0]
         G = g.nodes[tid]
-        greads = d.reads(G.ast)
+        from ..model import stores_in_target
+        # effective reads of the guard: temporaries recomputed on the way to
+        # the guard within the same iteration are replaced by what they read
+        L = G.loops[-1] if G.loops else None
+        body = g.loop_body.get(L, set())
+        anc = _ancestors_noback(g, G.id)
+        greads = set(d.reads(G.ast))
+        for _ in range(4):
+            grown = set(greads)
+            for n in g.stmt_nodes():
+                if n.kind != 'stmt' or n.id not in body or n.id not in anc:
+                    continue
+                a = n.ast
+                if isinstance(a, ast.Assign) and len(a.targets) == 1 and \
+                        isinstance(a.targets[0], ast.Name) and \
+                        a.targets[0].id in greads:
+                    rr = d.reads(a.value)
+                    if a.targets[0].id not in rr:
+                        grown |= rr
+                        grown.discard(a.targets[0].id)
+            if grown == greads:
+                break
+            greads = grown
         # innermost for loop around G binding a name G reads
         F = None
         for h in reversed(G.loops):
             hn = g.nodes[h]
             if hn.kind == 'for':
-                tn = set(I.stores_in_target(hn.ast.target)) if \
-                    hasattr(I, 'stores_in_target') else set()
-                from ..model import stores_in_target
-                tn = set(stores_in_target(hn.ast.target))
-                if tn & greads:
+                if set(stores_in_target(hn.ast.target)) & greads:
                     F = hn
                     break
-        ignore = {kinds_loc[kind].split('[')[0].split('.')[0]}
+        ignore = {kinds_loc[kind].split('[')[0].split('.')[0], 'self', 'rpc'}
         w1names = {x for x in greads if x.isidentifier()} - ignore
         if F is not None:
-            from ..model import stores_in_target
             w1names -= set(stores_in_target(F.ast.target))
             w2names = {x for x in d.reads(F.ast.iter) if x.isidentifier()} \
                 - ignore
@@ -601,10 +632,9 @@ def check_picks(prog, rep, f, kinds_loc, label, rid5='R01.5', rid6='R01.6',
             w2names = set()
         writers = set()
         for n in g.stmt_nodes():
-            if n is F or n.kind not in ('stmt', 'for', 'with'):
+            if n is F or n.kind not in ('stmt',):
                 continue
-            wn = _written_names(n)
-            if wn & (w1names | w2names):
+            if _progress_names(n, d) & (w1names | w2names):
                 writers.add(n.id)
         skip_edges = []
         if F is not None:
@@ -616,6 +646,32 @@ def check_picks(prog, rep, f, kinds_loc, label, rid5='R01.5', rid6='R01.6',
             r |= g.reachable(e.dst, skip_nodes=writers, skip_edges=skip_edges) \
                 if e.dst not in writers else set()
         again = G.id in r
+        # a constant reset of the cursor/tally between two picks restarts the
+        # scan on the unchanged node: the same index is found again
+        resets = []
+        fwd = set()
+        for e in g.succ[node.id]:
+            if e.label != 'exc':
+                fwd |= g.reachable(e.dst, skip_edges=skip_edges)
+        back = _ancestors(g, G.id)
+        for n in g.stmt_nodes():
+            if n.kind == 'stmt' and n.id in fwd and n.id in back and \
+                    isinstance(n.ast, ast.Assign):
+                for t in n.ast.targets:
+                    if isinstance(t, ast.Name) and t.id in (w1names | w2names) \
+                            and not ({x for x in d.reads(n.ast.value)
+                                      if x.isidentifier()} - {'list', 'dict',
+                                                              'set', 'int'}):
+                        resets.append(n)
+        for n in resets:
+            rep.bad(rid6, f, n.ast,
+                    '%s: `%s` resets the cursor/tally read by the pick guard '
+                    '`%s` between two picks of one search: the scan restarts '
+                    'on the unchanged node and finds the same %s again'
+                    % (label, short(n.ast, 40), short(G.ast, 50), kind[:-1]),
+                    f.loc(n.ast),
+                    history='one request for two ranks on a node: both ranks '
+                    'receive the same %s index' % kind[:-1])
         rep.check(not again, rid6, f,
                   '%s: after pick %s the cursor/tally (%s) is written before '
                   'the guard is evaluated for the next slot' % (
@@ -633,26 +689,50 @@ def check_picks(prog, rep, f, kinds_loc, label, rid5='R01.5', rid6='R01.6',
     return len(picks)
 
 
-def _written_names(n):
+def _ancestors_noback(g, nid):
+    seen = set()
+    todo = [nid]
+    while todo:
+        n = todo.pop()
+        for e in g.pred[n]:
+            if e.back:
+                continue
+            if e.src not in seen:
+                seen.add(e.src)
+                todo.append(e.src)
+    return seen
+
+
+def _progress_names(n, d):
+    """names whose value a statement *advances*: augmented assignments,
+    stores through a subscript/attribute, mutator calls, and plain assignments
+    whose right-hand side reads at least one name (a constant reset such as
+    `cursor = 0` restarts the scan and is not progress)"""
     out = set()
-    if n.kind == 'for':
-        from ..model import stores_in_target
-        return set(stores_in_target(n.ast.target))
-    if n.kind != 'stmt':
-        return out
     a = n.ast
-    tg = []
-    if isinstance(a, ast.Assign):
-        tg = a.targets
-    elif isinstance(a, (ast.AugAssign, ast.AnnAssign)):
-        tg = [a.target]
-    for t in tg:
-        for e in I._flat(t):
-            r = e
-            while isinstance(r, (ast.Subscript, ast.Attribute)):
-                r = r.value
-            if isinstance(r, ast.Name):
-                out.add(r.id)
+    if isinstance(a, ast.AugAssign):
+        r = a.target
+        while isinstance(r, (ast.Subscript, ast.Attribute)):
+            r = r.value
+        if isinstance(r, ast.Name):
+            out.add(r.id)
+    elif isinstance(a, (ast.Assign, ast.AnnAssign)):
+        tg = a.targets if isinstance(a, ast.Assign) else [a.target]
+        value = a.value
+        nonconst = value is not None and bool(
+            {x for x in d.reads(value) if x.isidentifier()} -
+            {'list', 'dict', 'set', 'int', 'float', 'rpc'})
+        for t in tg:
+            for e in I._flat(t):
+                if isinstance(e, ast.Name):
+                    if nonconst:
+                        out.add(e.id)
+                else:
+                    r = e
+                    while isinstance(r, (ast.Subscript, ast.Attribute)):
+                        r = r.value
+                    if isinstance(r, ast.Name):
+                        out.add(r.id)
     for c in calls_in(a):
         if isinstance(c.func, ast.Attribute) and c.func.attr in I.MUTATING:
             r = root_name(c.func.value)
@@ -667,7 +747,7 @@ def r01_5_6(prog, rep):
              'that index', minimum=7)
     rep.rule('R01.6', 'within one search, the cursor or tally read by a pick '
              'guard is advanced between two picks (no index is picked twice '
-             'for one request)', minimum=5)
+             'for one request)', minimum=1)
     base, classes = sched_classes(prog)
     n = 0
     for K in classes:
@@ -682,6 +762,9 @@ def r01_5_6(prog, rep):
     n += check_picks(prog, rep, f, {'cores': 'self.cores', 'gpus': 'self.gpus'},
                      'Node', do6=False)
     rep.stat('pick_sites', n)
+    if n < 7:
+        raise AnalysisError('R01.5: only %d pick sites recognised (expected '
+                            '>= 7): the search functions changed shape' % n)
 
 
 # ------------------------------------------------------------------------------
@@ -950,3 +1033,115 @@ def run(prog, rep, tier):
                  'use the inherited node list', minimum=0)
         r01_1(prog, rep, rid='R01.1s', extra_classes=[k for k in extra if k.name
               not in ('Continuous', 'ContinuousJsrun')])
+
+
+# ------------------------------------------------------------------------------
+# self-test variants (thorough tier / --selftest)
+#
+_B = 'agent/scheduler/base.py'
+_C = 'agent/scheduler/continuous.py'
+_J = 'agent/scheduler/continuous_jsrun.py'
+_R = 'agent/resource_manager/base.py'
+_N = 'resource_config.py'
+
+MUTATIONS = [
+    dict(name='R01.1 search marks the core it found', rules=('R01.1',), edits=[
+        (_C, "                if core == rpc.FREE:\n                    slot['cores'].append(RO(index=core_idx,\n                                            occupation=rpc.BUSY))\n",
+             "                if core == rpc.FREE:\n                    slot['cores'].append(RO(index=core_idx,\n                                            occupation=rpc.BUSY))\n                    node['cores'][core_idx] = rpc.BUSY\n")]),
+    dict(name='R01.1 schedule_task credits lfs through an alias', rules=('R01.1',), edits=[
+        (_C, "            node_index = node['index']\n            node_name  = node['name']\n\n            self._log.debug_7('next %d : %s', node_index, node_name)",
+             "            node_index = node['index']\n            node_name  = node['name']\n            n = node\n            n['lfs'] += 0\n\n            self._log.debug_7('next %d : %s', node_index, node_name)")]),
+    dict(name='R01.2 marking dropped in _try_allocation', rules=('R01.2',), edits=[
+        (_B, "            self._change_slot_states(slots, rpc.BUSY)\n            task['slots']     = slots\n",
+             "            task['slots']     = slots\n")]),
+    dict(name='R01.2 marks FREE instead of BUSY', rules=('R01.2',), edits=[
+        (_B, "            self._change_slot_states(slots, rpc.BUSY)\n            task['slots']     = slots\n",
+             "            self._change_slot_states(slots, rpc.FREE)\n            task['slots']     = slots\n")]),
+    dict(name='R01.2 marking only for multi-slot placements', rules=('R01.2',), edits=[
+        (_B, "            self._change_slot_states(slots, rpc.BUSY)\n            task['slots']     = slots\n",
+             "            if len(slots) > 1:\n                self._change_slot_states(slots, rpc.BUSY)\n            task['slots']     = slots\n")]),
+    dict(name='R01.2 slots not attached to the task', rules=('R01.2',), edits=[
+        (_B, "            task['slots']     = slots\n            task['partition'] = partition\n",
+             "            task['partition'] = partition\n")]),
+    dict(name='R01.3 pre-placed tasks not marked (F09 reverted)', rules=('R01.3',), edits=[
+        (_B, "                    try:\n                        self._change_slot_states(task['slots'], rpc.BUSY)\n                    except Exception as e:\n                        self._fail_task(task, e,\n                                        '\\n'.join(ru.get_exception_trace()))\n                        continue\n                    self._active_cnt += 1\n",
+             "")]),
+    dict(name='R01.3 waiting tasks started although allocation failed', rules=('R01.3',), edits=[
+        (_B, "                    else:\n                        to_wait.append(task)\n\n                except Exception as e:",
+             "                    else:\n                        self.advance(task, rps.AGENT_EXECUTING_PENDING,\n                                     publish=True, push=True)\n\n                except Exception as e:")]),
+    dict(name='R01.4 lfs/mem not tested (F07 reverted)', rules=('R01.4',), edits=[
+        (_C, "        while len(slots) < max_slots:", "        while len(slots) < n_slots:")]),
+    dict(name='R01.4 jsrun search ignores free mem', rules=('R01.4',), edits=[
+        (_J, "        if mem_per_slot:\n            alc_slots = min(alc_slots, int(m.floor(free_mem / mem_per_slot)))\n", "")]),
+    dict(name='R01.5 core pick guard flipped', rules=('R01.5',), edits=[
+        (_C, "                if core == rpc.FREE:", "                if core != rpc.FREE:")]),
+    dict(name='R01.5 gpu pick tests BUSY', rules=('R01.5',), edits=[
+        (_C, "                    if gpu == rpc.FREE:", "                    if gpu == rpc.BUSY:")]),
+    dict(name='R01.5 gpu pick unguarded', rules=('R01.5',), edits=[
+        (_C, "                    if gpu == rpc.FREE:\n                        slot['gpus'].append(RO(index=gpu_idx,\n                                               occupation=rpc.BUSY))\n",
+             "                    slot['gpus'].append(RO(index=gpu_idx,\n                                           occupation=rpc.BUSY))\n")]),
+    dict(name='R01.5 share test reversed', rules=('R01.5',), edits=[
+        (_C, "                    if gpus_per_slot <= rpc.BUSY - gpu_used:", "                    if gpus_per_slot >= rpc.BUSY - gpu_used:")]),
+    dict(name='R01.5 jsrun core pick guard flipped', rules=('R01.5',), edits=[
+        (_J, "                if node['cores'][core_idx] == rpc.FREE:", "                if node['cores'][core_idx] != rpc.FREE:")]),
+    dict(name='R01.5 Node.find_slot share test reversed', rules=('R01.5',), edits=[
+        (_N, "                    if rr.core_occupation <= BUSY - ro.occupation:", "                    if rr.core_occupation >= BUSY - ro.occupation:")]),
+    dict(name='R01.6 core cursor not advanced', rules=('R01.6',), edits=[
+        (_C, "            loop_core_idx = core_idx + 1\n", "")]),
+    dict(name='R01.6 gpu cursor not advanced', rules=('R01.6',), edits=[
+        (_C, "                loop_gpu_idx = gpu_idx + 1\n\n                if len(slot['gpus']) < gpus_per_slot:", "                if len(slot['gpus']) < gpus_per_slot:")]),
+    dict(name='R01.6 share tally dropped (F08 reverted)', rules=('R01.6',), edits=[
+        (_C, "                        gpu_shares[gpu_idx] = gpus_per_slot + \\\n                                              gpu_shares.get(gpu_idx, 0.0)\n", "")]),
+    dict(name='R01.6 jsrun gpu cursor reset per slot', rules=('R01.6',), edits=[
+        (_J, "            cores = list()\n            gpus  = list()\n\n            while len(cores) < cores_per_slot:",
+             "            cores = list()\n            gpus  = list()\n            gpu_idx = 0\n\n            while len(cores) < cores_per_slot:")],
+         note='re-initialising the cursor is a write to it: R01.6 is a necessary condition only (DESIGN)'),
+    dict(name='R01.7 blocked cores marked FREE', rules=('R01.7',), edits=[
+        (_R, "                    node['cores'][idx] = rpc.DOWN", "                    node['cores'][idx] = rpc.FREE")]),
+    dict(name='R01.7 blocked gpus not marked', rules=('R01.7',), edits=[
+        (_R, "                for idx in blocked_gpus:\n                    assert len(node['gpus']) > idx\n                    node['gpus'][idx] = rpc.DOWN\n", "")]),
+    dict(name='R01.7 marking after filtering', rules=('R01.7',), edits=[
+        (_R, "        self._filter_nodes(rm_info)\n\n        # add launch method", "        # add launch method"),
+        (_R, "        if blocked_cores or blocked_gpus:\n", "        self._filter_nodes(rm_info)\n        if blocked_cores or blocked_gpus:\n")]),
+    dict(name='R01.7 marking only when not oversubscribing', rules=('R01.7',), edits=[
+        (_R, "        if blocked_cores or blocked_gpus:\n", "        if (blocked_cores or blocked_gpus) and not rm_info.details['oversubscribe']:\n")]),
+    dict(name='R01.7 DOWN equals FREE', rules=('R01.7',), edits=[
+        ('constants.py', "DOWN = None", "DOWN = 0.0")]),
+    dict(name='R01.8 agent node copied, not moved', rules=('R01.8',), edits=[
+        (_R, "                    rm_info.agent_node_list.append(rm_info.node_list.pop())", "                    rm_info.agent_node_list.append(rm_info.node_list[-1])")]),
+    dict(name='R01.9 deallocate_slot without the lock', rules=('R01.9',), edits=[
+        (_N, "    def deallocate_slot(self, slot : 'Slot') -> None:\n\n        with self.__lock__:\n", "    def deallocate_slot(self, slot : 'Slot') -> None:\n\n        if True:\n")]),
+    dict(name='R01.9 find_slot lfs test reversed', rules=('R01.9',), edits=[
+        (_N, "            if self.lfs is not None:\n                if rr.lfs and self.lfs < rr.lfs: return None\n\n            if self.mem is not None:\n                if rr.mem and self.mem < rr.mem: return None\n\n            slot = Slot(",
+             "            if self.lfs is not None:\n                if rr.lfs and self.lfs > rr.lfs: return None\n\n            if self.mem is not None:\n                if rr.mem and self.mem < rr.mem: return None\n\n            slot = Slot(")]),
+    dict(name='R01.9 find_slot mem test dropped', rules=('R01.9',), edits=[
+        (_N, "            if self.mem is not None:\n                if rr.mem and self.mem < rr.mem: return None\n\n            slot = Slot(", "            slot = Slot(")]),
+]
+
+SILENT = [
+    dict(name='pick guard in early-continue form', edits=[
+        (_C, "                if core == rpc.FREE:\n                    slot['cores'].append(RO(index=core_idx,\n                                            occupation=rpc.BUSY))\n",
+             "                if core != rpc.FREE:\n                    continue\n                slot['cores'].append(RO(index=core_idx,\n                                        occupation=rpc.BUSY))\n")]),
+    dict(name='cursor renamed', edits=[
+        (_C, "        loop_core_idx = 0\n", "        cur = 0\n"),
+        (_C, "            for core_idx,core in enumerate(node['cores'][loop_core_idx:],\n                                                         loop_core_idx):",
+             "            for core_idx,core in enumerate(node['cores'][cur:], cur):"),
+        (_C, "            loop_core_idx = core_idx + 1\n", "            cur = core_idx + 1\n")]),
+    dict(name='attach before mark in _try_allocation', edits=[
+        (_B, "            self._change_slot_states(slots, rpc.BUSY)\n            task['slots']     = slots\n",
+             "            task['slots']     = slots\n            self._change_slot_states(slots, rpc.BUSY)\n")]),
+    dict(name='share test written from the other side', edits=[
+        (_C, "                    if gpus_per_slot <= rpc.BUSY - gpu_used:", "                    if rpc.BUSY - gpu_used >= gpus_per_slot:")]),
+    dict(name='free test with constant on the left', edits=[
+        (_J, "                if node['cores'][core_idx] == rpc.FREE:", "                if rpc.FREE == node['cores'][core_idx]:")]),
+    dict(name='node alias in _change_slot_states', edits=[
+        (_B, "            for core in slot['cores']:\n                node['cores'][core['index']] = new_state\n",
+             "            cores = node['cores']\n            for core in slot['cores']:\n                cores[core['index']] = new_state\n")]),
+    dict(name='success signalled by returning the slots', edits=[
+        (_B, "            self._prof.prof('schedule_ok', uid=uid)\n\n        except Exception as e:", "            self._prof.prof('schedule_ok', uid=uid)\n            return bool(slots)\n\n        except Exception as e:")]),
+    dict(name='find_slot lfs test as >=', edits=[
+        (_N, "                if rr.lfs and self.lfs < rr.lfs: return None\n\n            if self.mem is not None:\n                if rr.mem and self.mem < rr.mem: return None\n\n            slot = Slot(", "                if rr.lfs and not self.lfs >= rr.lfs: return None\n\n            if self.mem is not None:\n                if rr.mem and self.mem < rr.mem: return None\n\n            slot = Slot(")]),
+    dict(name='blocked marking split in two ifs', edits=[
+        (_R, "                for idx in blocked_gpus:\n                    assert len(node['gpus']) > idx\n                    node['gpus'][idx] = rpc.DOWN\n",
+             "                if blocked_gpus:\n                    for idx in blocked_gpus:\n                        node['gpus'][idx] = rpc.DOWN\n")]),
+]
